@@ -23,6 +23,9 @@ VARIANTS = {
     "asan": ("-O1 -g -fno-omit-frame-pointer -fsanitize=address,undefined -fno-sanitize-recover=all " + GUARD, {}),
     "tsan": ("-O1 -g -fno-omit-frame-pointer -fsanitize=thread -DNDEBUG " + GUARD, {}),
     "port": ("-O2 -g -DNDEBUG " + GUARD + " " + PORT_FLAGS, {"RXV_REPLACE_NEW": "ON", "RXV_PORTABLE": "ON"}),
+    # host-compiled a64 / rv64 emitters + emulators (C19, C20), plain and sanitised
+    "xjit": ("-O2 -g -DNDEBUG " + GUARD, {"RXV_XJIT": "ON"}),
+    "xjit_asan": ("-O1 -g -fno-omit-frame-pointer -fsanitize=address,undefined -fno-sanitize-recover=all -DNDEBUG " + GUARD, {"RXV_XJIT": "ON"}),
 }
 
 
@@ -46,7 +49,7 @@ def build(variant, quiet=True):
             cmd = ["cmake", "-G", "Ninja", "-S", os.path.join(VERIF, "harness"), "-B", bdir,
                    "-DCMAKE_BUILD_TYPE=Custom", "-DCMAKE_C_FLAGS=" + flags, "-DCMAKE_CXX_FLAGS=" + flags,
                    "-DRXV_REPO=" + REPO, "-DCMAKE_EXPORT_COMPILE_COMMANDS=ON"]
-            for k in ("RXV_REPLACE_NEW", "RXV_PORTABLE"):
+            for k in ("RXV_REPLACE_NEW", "RXV_PORTABLE", "RXV_XJIT"):
                 cmd.append("-D%s=%s" % (k, opts.get(k, "OFF")))
             r = subprocess.run(cmd, stdout=subprocess.PIPE, stderr=subprocess.STDOUT, text=True)
             if r.returncode != 0:
